@@ -24,6 +24,7 @@ MANIFEST = dict(
     ref="6/C16")
 
 hx, unhx = C.hx, C.unhx
+HLIBS = ("-lpcre2-8", "-lz", "-lm", "-ldl", "-lcrypt")     # crypt(3) for htpasswd records
 B64 = b"ABCDEFGHIJKLMNOPQRSTUVWXYZabcdefghijklmnopqrstuvwxyz0123456789+/"
 METHODS = ["GET", "POST", "HEAD", "PUT", "DELETE", "OPTIONS", "CONNECT"]
 
@@ -896,7 +897,7 @@ def gen(ctx):
 
 
 def run(ctx):
-    exe, err = C.build_harness("h_auth")
+    exe, err = C.build_harness("h_auth", libs=HLIBS)
     if exe is None:
         ctx.broken.append({"kind": "harness-build", "names": ["h_auth"], "log": err[-3000:]})
         return
@@ -919,7 +920,7 @@ def run(ctx):
 
 
 def replay_line(ctx, rep):
-    exe, err = C.build_harness("h_auth")
+    exe, err = C.build_harness("h_auth", libs=HLIBS)
     line = rep["input"]
     o, rc, e = C.run_lines([exe], [line])
     m, _, _ = C.run_model("auth", [line])
